@@ -35,6 +35,7 @@ class RadNF:
         # polynomials the caller knows to be positive on the domain (e.g. ps - p0 for a compression):
         # an irreducible factor that is the negative of one of them is re-oriented before roots are taken
         self.positive = {sp.srepr(sp.expand(x)) for x in positive}
+        self.orient = None    # optional callable: polynomial factor -> -1 if negative on the domain
         for s in units:       # sign symbols: s**2 == 1
             self.defs[s] = (sp.Integer(1), 2)
 
@@ -65,12 +66,14 @@ class RadNF:
             for f, m in fl:
                 if not f.is_Symbol:
                     f = sp.expand(f)
-                    if sp.srepr(sp.expand(-f)) in self.positive:
+                    if sp.srepr(sp.expand(-f)) in self.positive or (self.orient is not None and self.orient(f) < 0):
                         f = sp.expand(-f)
                         content *= (-1) ** m
                 factors.append((f, sign * m))
         # the sign of the WHOLE radicand: factor_list orients every factor canonically and leaves the sign
         # in the content; only an overall negative sign has to be moved into a factor
+        if content.is_number and content < 0 and self.orient is not None:
+            raise Unsupported('root of a quantity that is negative on the declared domain')
         if content.is_number and content < 0:
             if q % 2 == 1:
                 raise Unsupported('odd root of a negative content')
@@ -126,6 +129,9 @@ class RadNF:
         return cur
 
     def is_zero(self, expr):
+        from .ratnf import refuted
+        if not self.defs and refuted(expr):
+            return False
         e = self.rewrite(expr)
         e = sp.together(e)
         num, den = sp.fraction(e)
